@@ -177,6 +177,10 @@ def cases(ctx):
         else:
             la2, lo2 = rng.uniform(-90, 90), rng.uniform(-180, 180)
         pairs.append((la1, lo1, la2, lo2))
+    # identical points: sin^2 + cos^2 rounds above 1 for a few per cent of latitudes, the clamp must keep the distance at 0
+    for _ in range(ctx.n(600, 6000)):
+        la1, lo1 = rng.uniform(-90, 90), rng.uniform(-180, 180)
+        pairs.append((la1, lo1, la1, lo1))
     for (la1, lo1, la2, lo2) in pairs:
         anti = abs(la1 + la2) < 1e-3 and abs(abs(lo1 - lo2) - 180) < 1e-3
         # near-identical and near-antipodal points: acos is ill-conditioned, the float instances may differ more than 1e-9
